@@ -620,7 +620,15 @@ func c07Conn(r *fw.R, beh string, role Role, p wire.Params, seed uint64, success
 				return
 			}
 		}
-		ok := peer.Wait(10*time.Second, func() bool { return len(peer.Conf.Messages) >= 12 })
+		// (every Write has returned: the bytes are in the transport; how long the raw peer takes to parse them
+		// says nothing about the library - wait for as long as its parser still makes progress)
+		ok := false
+		for lastN, lastT := -1, time.Now(); !ok && time.Since(lastT) < 60*time.Second; {
+			ok = peer.Wait(2*time.Second, func() bool { return len(peer.Conf.Messages) >= 12 })
+			if n := peer.NFrames(); n != lastN {
+				lastN, lastT = n, time.Now()
+			}
+		}
 		peer.Locked(func() {
 			if !ok {
 				r.Violate("C07/wsjson-messages-missing", fmt.Sprintf("connection %d: %d of 12 arrived", k, len(peer.Conf.Messages)), "")
